@@ -444,6 +444,7 @@ class IdMonitor(Monitor):
         self.which = which
         self.name = which
         self.ok = True
+        self.off = False
         self.U: list = []
         self.R: list = []
 
@@ -498,8 +499,14 @@ class IdMonitor(Monitor):
             named = self.R.pop() if self.R else None
         # the id feature may be switched off for a while (its values are then not maintained
         # and not judged); switching it on with recomputation is judged like a construction
+        # (whether it is off is the harness's own knowledge - it is the one that switches it -
+        # not the annotator's flag: an annotator that is silently inactive must not escape)
         fkey = t.features.tracklet_key if self.which == "track" else t.features.lineage_key
-        if fkey not in t.annotators.features:
+        if k == "features" and rec.out.ok and fkey in (rec.op.get("disable") or []):
+            self.off = True
+        if k == "features" and rec.out.ok and fkey in (rec.op.get("enable") or []):
+            self.off = False
+        if fkey is None or self.off:
             self.count("steps-while-feature-disabled")
             self.ok = False
             return out
